@@ -297,7 +297,8 @@ func b2i(b bool) int {
 // DynExtra enumerates smaller families around $dynamicRef that the chain product does
 // not contain: a static $ref naming a dynamic anchor, two different dynamic names in
 // scope, anchors on resource roots with the recursive "tree" pattern, resources nested
-// inside embedded resources, and documents whose retrieval URI differs from their $id.
+// inside embedded resources, documents whose retrieval URI differs from their $id, and resources
+// that are entered directly as the subschema of an applicator after a sibling was evaluated.
 func DynExtra(yield func(u *Universe)) {
 	// A/B: chains of k resources joined by plain $ref, anchor kinds over four values, final in several forms
 	kinds4 := []string{`"$dynamicAnchor":"n",`, `"$anchor":"n",`, ``, `"$dynamicAnchor":"k",`}
@@ -420,6 +421,68 @@ func DynExtra(yield func(u *Universe)) {
 				doc := `{` + id + `"$ref":"p.json","$defs":{"m":{` + anchorKinds[k1] + `"const":11},"p":{"$id":"p.json","$dynamicRef":"` + fin + `","$defs":{"m":{"$dynamicAnchor":"n","const":12}}}}}`
 				root := `{"$id":"http://h/r0.json","$ref":"r1.json","$defs":{"m":{` + anchorKinds[k0] + `"const":10}}}`
 				yield(&Universe{Root: root, Base: "http://h/r0.json", Docs: map[string]string{"http://h/r1.json": doc}, Kind: "retrieval", Insts: []string{"10", "11", "12", "99"}})
+			}
+		}
+	}
+	// F: resources entered DIRECTLY through an applicator (the next resource is the applicator's
+	// subschema itself, with its own $id, not the target of a reference), after a sibling
+	// subschema of the enclosing resource has been evaluated; 2 and 3 levels, every anchor kind,
+	// the outermost level embedded in the root or supplied by the loader behind a $ref
+	type direct struct {
+		name string
+		mk   func(inner string) string // keywords of the enclosing resource that hold the next one
+		wrap func(inst string) string  // the instance location moves accordingly
+	}
+	same := func(x string) string { return x }
+	directs := []direct{
+		{"allOf-after-sibling", func(in string) string { return `"allOf":[{"type":["integer","object","array"]},` + in + `]` }, same},
+		{"additionalProperties-after-allOf", func(in string) string { return `"allOf":[{"minProperties":1}],"additionalProperties":` + in }, func(x string) string { return `{"a":` + x + `}` }},
+		{"items-after-anyOf", func(in string) string { return `"anyOf":[{"minItems":1}],"items":` + in }, func(x string) string { return `[` + x + `]` }},
+		{"then-after-if", func(in string) string { return `"if":{"type":["integer","object","array"]},"then":` + in }, same},
+		{"allOf-first", func(in string) string { return `"allOf":[` + in + `,{"type":["integer","object","array"]}]` }, same},
+	}
+	for k := 2; k <= 3; k++ {
+		total := 1
+		for i := 0; i < k; i++ {
+			total *= 3
+		}
+		for kv := 0; kv < total; kv++ {
+			for d1 := range directs {
+				for d2 := range directs {
+					if k == 2 && d2 > 0 {
+						continue
+					}
+					for _, fin := range []string{"#n", "#/$defs/m", "r0.json#n", "r1.json#n"} {
+						for _, loaded := range []bool{false, true} {
+							x := kv
+							kind := make([]int, k)
+							for i := range kind {
+								kind[i] = x % 3
+								x /= 3
+							}
+							ds := []direct{directs[d1], directs[d2]}
+							body := fmt.Sprintf(`{"$id":"http://h/r%d.json","$dynamicRef":%q,"$defs":{"m":{%s"const":%d}}}`, k-1, fin, anchorKinds[kind[k-1]], 10+k-1)
+							wrap := same
+							for i := k - 2; i >= 0; i-- {
+								d := ds[i]
+								body = fmt.Sprintf(`{"$id":"http://h/r%d.json",%s,"$defs":{"m":{%s"const":%d}}}`, i, d.mk(body), anchorKinds[kind[i]], 10+i)
+								w0 := wrap
+								wrap = func(s string) string { return d.wrap(w0(s)) }
+							}
+							u := &Universe{Root: body, Base: "http://h/r0.json", Docs: map[string]string{}, Kind: "direct " + ds[0].name}
+							if loaded {
+								u.Root = `{"$id":"http://h/top.json","$ref":"r0.json","$defs":{"m":{"$anchor":"n","const":9}}}`
+								u.Base = "http://h/top.json"
+								u.Docs["http://h/r0.json"] = body
+							}
+							for _, v := range []string{"9", "10", "11", "12", "99"} {
+								u.Insts = append(u.Insts, wrap(v))
+							}
+							u.Insts = append(u.Insts, "10", `"s"`)
+							yield(u)
+						}
+					}
+				}
 			}
 		}
 	}
